@@ -117,14 +117,23 @@ class Ctx:
         return True
 
     # ------------------------------------------------------------------ step 3
-    def component(self, name, cases, timeout=3000, model=True):
-        """model vs implementation on the given case lines (model=False: implementation only, under the sanitizers)"""
+    def component(self, name, cases, timeout=3000, model=True, keys=None, verdict=True):
+        """model vs implementation on the given case lines.
+        model=False : implementation only (under the sanitizers), traces for the oracle
+        keys        : compare only these observables (the ones the property's theorems depend on)
+        verdict=False: a diagnostic of the model as a whole; recorded in the evidence, never part of the verdict"""
         if self.bdir is None:
             return None
         t0 = time.time()
-        res = vf.run_both(self.bdir, cases, name, timeout=timeout, model=model)
+        res = vf.run_both(self.bdir, cases, name, timeout=timeout, model=model, keys=keys)
+        if not verdict:
+            self.extra.setdefault('diagnostics', {})[name] = {'cases': res['n'], 'compared_tokens': res['compared_tokens'],
+                                                               'mismatches': len(res['mismatches']), 'crashes': len(res['crashes']),
+                                                               'first_mismatch': (res['mismatches'][0] if res['mismatches'] else None),
+                                                               'note': 'whole-model diagnostic, not part of this property\'s verdict'}
+            return res
         st = {'cases': res['n'], 'compared_tokens': res['compared_tokens'], 'mismatches': len(res['mismatches']),
-              'crashes': len(res['crashes']), 'wall_s': round(time.time() - t0, 2)}
+              'crashes': len(res['crashes']), 'wall_s': round(time.time() - t0, 2), 'compared': ('implementation only' if not model else (sorted(keys) if keys else 'all observables'))}
         self.components[name] = st
         if res['mismatches']:
             m = res['mismatches'][0]
